@@ -1,16 +1,44 @@
-(* C06 — appending is equivalent to having written the concatenation (placeholder until Proofs/AppendProofs.v lands:
-   the refusal theorems are computation on the model). *)
+(* C06 — appending is equivalent to having written the concatenation. *)
 From Coq Require Import String.
 From Coq Require Import ZArith List Bool.
-From LasV Require Import Lib.Base Lib.Layout Model.Las Model.LasSpec.
+From LasV Require Import Lib.Base Lib.Layout Gen.GenHeaderLayout Gen.GenFormatBits Gen.GenDims Model.Las Model.LasSpec Model.LasFast
+  Proofs.HeaderLen Proofs.VlrProofs Proofs.HeaderProofs Proofs.WriterProofs Proofs.AppendProofs Proofs.LasFastProofs.
 Import ListNotations.
 Open Scope list_scope.
 Open Scope Z_scope.
 
+(* an append session with chunks Bs (empty ones included) on the one-shot file of A (0..n points, any version/format, with or
+   without VLRs and EVLRs) yields BYTE FOR BYTE the one-shot file of A ++ concat Bs: same point sequence, exact statistics,
+   VLRs unchanged, EVLRs re-emitted after the new points with the pointer updated *)
+Theorem C06_append_equiv : forall ap, ap_ok ap -> (forall s o x, 0 <= ap s o x) ->
+  forall h vl fmt A evl Bs f0 f1,
+  wf_las ap h vl fmt A evl -> wf_las ap h vl fmt (A ++ concat Bs) evl ->
+  file_of ap h vl fmt A evl = Ok f0 ->
+  file_of ap h vl fmt (A ++ concat Bs) evl = Ok f1 ->
+  arun ap f0 Bs = Ok f1.
+Proof. exact append_equiv. Qed.
+Print Assumptions C06_append_equiv.
+
+(* several successive sessions compose *)
+Theorem C06_sessions : forall ap, ap_ok ap -> (forall s o x, 0 <= ap s o x) ->
+  forall h vl fmt A evl Bs Cs f0 f1 f2,
+  wf_las ap h vl fmt A evl -> wf_las ap h vl fmt (A ++ concat Bs) evl -> wf_las ap h vl fmt ((A ++ concat Bs) ++ concat Cs) evl ->
+  file_of ap h vl fmt A evl = Ok f0 -> file_of ap h vl fmt (A ++ concat Bs) evl = Ok f1 ->
+  file_of ap h vl fmt ((A ++ concat Bs) ++ concat Cs) evl = Ok f2 ->
+  arun ap f0 Bs = Ok f1 /\ arun ap f1 Cs = Ok f2 /\ arun ap f0 (Bs ++ Cs) = Ok f2.
+Proof. exact append_sessions. Qed.
+Print Assumptions C06_sessions.
+
+(* records of another point format are refused without touching anything; an empty chunk is a no-op *)
 Theorem C06_wrong_format : forall ap s recs, recs <> [] -> apoints ap s recs false = (s, Err ELaspy).
-Proof. intros ap s [|r recs] H; [congruence|reflexivity]. Qed.
+Proof. exact append_wrong_format. Qed.
 Print Assumptions C06_wrong_format.
 
 Theorem C06_empty_chunk : forall ap s b, apoints ap s [] b = (s, Ok tt).
-Proof. reflexivity. Qed.
+Proof. exact append_empty_chunk. Qed.
 Print Assumptions C06_empty_chunk.
+
+(* the executable appender run against the implementation is the one the theorems speak about *)
+Theorem C06_executable_twin : forall ap src chunks, arun_f ap src chunks = arun ap src chunks.
+Proof. exact arun_f_eq. Qed.
+Print Assumptions C06_executable_twin.
